@@ -209,6 +209,7 @@ def run(ctx: Ctx) -> None:
         cases.append((maxsize, events, fault))
     if ctx.driver_ok:
         check_types(ctx)
+    check_negotiated_max(ctx)
     seen_fail = set()
     for maxsize, events, fault in cases:
         if ctx.time_left() < 0:
@@ -285,9 +286,61 @@ def check_types(ctx: Ctx) -> None:
             break
 
 
+NEGOTIATED_MAX_CASES = [
+    # (what the two OPENs announce, the message the peer then sends, what the bound must make of it)
+    ({'extended': True, 'peer_extended': True}, ['update', 100], 'taken'),        # 5000 octets, 65535 negotiated
+    ({'extended': True, 'peer_extended': True}, ['update', 101], 'taken'),        # 65535 octets
+    ({'extended': True, 'peer_extended': True, 'local_as_auto': True}, ['update', 100], 'taken'),  # our OPEN sent last (F108)
+    ({'extended': True, 'peer_extended': False}, ['tooLong'], '1 2'),             # only we announce it: 4096, header of 4097
+    ({'extended': True, 'peer_extended': False}, ['tooLong', 3], '1 2'),          # ... header of 65535
+    ({'extended': False, 'peer_extended': True}, ['tooLong'], '1 2'),             # only the peer announces it
+    ({'extended': False, 'peer_extended': False}, ['tooLong', 1], '1 2'),         # nobody does
+    ({'extended': False, 'peer_extended': False}, ['update'], 'taken'),
+]
+
+
+def negotiated_max_outcome(cfg: dict, msg: list) -> str:
+    """The real Peer over a socket pair: both OPENs, KEEPALIVEs, then one message: 'taken' (no NOTIFICATION, session
+    up) or the code and subcode of the NOTIFICATION written."""
+    from harness import sessionrig
+
+    sessionrig.install()
+    script = [['start'], ['connectOk'], ['recv', 1, 'open'], ['recv', 1, 'keepalive'], ['tick'], ['recv', 1] + msg, ['tick']]
+    r = sessionrig.run_case(script, dict(cfg, routes=1))
+    if 'error' in r:
+        return 'rig: ' + r['error'][:120]
+    items = [it for b in r['buckets'][5:] for it in b]
+    notes = [it for it in items if it.startswith('send 1 NOTIFICATION')]
+    if notes:
+        return ' '.join(notes[0].split(' ')[3:5])
+    if any(it.startswith('fsm ESTABLISHED>') for it in items):
+        return 'session ended without a NOTIFICATION'
+    return 'taken'
+
+
+def check_negotiated_max(ctx: Ctx) -> None:
+    """The bound of the header check is the NEGOTIATED maximum: 65535 only when both OPENs carry Extended Message."""
+    for cfg, msg, want in NEGOTIATED_MAX_CASES:
+        got = negotiated_max_outcome(cfg, msg)
+        ctx.evaluations += 1
+        ctx.count('negotiated-max:' + want)
+        if got == want:
+            ctx.nontrivial(['negotiated-max', sorted(cfg.items()), msg])
+            continue
+        canon = {'negotiated-maximum': sorted(k for k, v in cfg.items() if v), 'message': msg[0], 'got': got}
+        ctx.failures.append(Failure('stream-schedule', canon, {'negotiated_max': True, 'cfg': cfg, 'msg': msg, 'want': want},
+                                    f'OPENs {cfg}, then {msg}: {got}, expected {want} (RFC 8654 3: the maximum is 65535 only when both speakers announced Extended Message)'))
+
+
 def replay(path: str) -> int:
     data = json.loads(open(path).read())
     rp = data['replay']
+    if rp.get('negotiated_max'):
+        got = negotiated_max_outcome(rp['cfg'], rp['msg'])
+        print('OPENs   :', rp['cfg'])
+        print('message :', rp['msg'])
+        print('outcome :', got, '| expected', rp['want'])
+        return 0 if got == rp['want'] else 1
     impl = flat(run_impl(rp['max'], rp['events']))
     stream = b''.join(bytes.fromhex(e[1]) for e in rp['events'] if e[0] in ('chunk', 'chunkcancel'))
     want = reference(stream, rp['max'])
